@@ -24,12 +24,14 @@ type c05Params struct {
 	Closes    int `json:"closes_per_producer"`
 	Cap       int `json:"queue_cap"`
 	Bound     int `json:"bound"`
+	Flush     bool `json:"flush,omitempty"` // the producers' first operation on each stream is a one-byte Flush (data element) instead of a Close
 }
 
 type c05Conn struct {
 	inflight int // polling events written and not yet taken by the consumer
 	written  int
 	bad      string
+	tolerant bool
 }
 
 func (c *c05Conn) commitRead(n int)                       {}
@@ -38,6 +40,9 @@ func (c *c05Conn) writev(data ...[]byte) error            { return nil }
 func (c *c05Conn) close() error                           { return nil }
 func (c *c05Conn) write(data []byte) error {
 	if len(data) != headerSize || header(data).MsgType() != typePolling {
+		if c.tolerant {
+			return nil
+		}
 		c.bad = fmt.Sprintf("unexpected event written: % x", data)
 	}
 	c.inflight++
@@ -48,18 +53,36 @@ func (c *c05Conn) write(data []byte) error {
 func c05Body(p c05Params) func() {
 	return func() {
 		SetLogLevel(levelNoPrint)
+		vrt.ShmPoints(true)
+		bufferSlicePool.Reset()
+		timerPool.Reset()
 		mem := make([]byte, countQueueMemSize(uint32(p.Cap)))
 		sendQ := createQueueFromBytes(mem, uint32(p.Cap))
 		recvQ := mappingQueueFromBytes(mem)
 		conn := &c05Conn{}
 		cfg := DefaultConfig()
+		// (flush producers) a small buffer memory, two views: the producer allocates, the consumer - a client-mode session
+		// that does not know the streams - recycles what arrives
+		var bmP, bmC *bufferManager
+		if p.Flush {
+			vrt.ShmPointsOnly(mem)
+			bmem := make([]byte, bufferManagerHeaderSize+int(countBufferListMemSize(8, 16)))
+			var err error
+			if bmP, err = createBufferManager([]*SizePercentPair{{Size: 16, Percent: 100}}, "", bmem, 0); err != nil {
+				vrt.Failf("harness", "createBufferManager: %v", err)
+			}
+			if bmC, err = mappingBufferManager("", bmem, 0); err != nil {
+				vrt.Failf("harness", "mappingBufferManager: %v", err)
+			}
+		}
 		prod := &Session{
 			config: cfg, logger: newLogger("p", io.Discard), streams: map[uint32]*Stream{},
 			sendCh: make(chan sendReady, 16), notifyContinueWriteCh: make(chan struct{}, 1), shutdownCh: make(chan struct{}),
 			isClient: true, communicationVersion: protoVersion, eventConn: conn,
-			queueManager: &queueManager{sendQueue: sendQ, recvQueue: createQueue(1)},
+			queueManager: &queueManager{sendQueue: sendQ, recvQueue: createQueue(1)}, bufferManager: bmP,
 		}
 		cons := &Session{
+			isClient: p.Flush, bufferManager: bmC,
 			config: cfg, logger: newLogger("c", io.Discard), streams: map[uint32]*Stream{},
 			sendCh: make(chan sendReady, 16), notifyContinueWriteCh: make(chan struct{}, 1), shutdownCh: make(chan struct{}),
 			communicationVersion: protoVersion, eventConn: &c05Conn{},
@@ -94,6 +117,13 @@ func c05Body(p c05Params) func() {
 			ths = append(ths, vrt.GoProc(fmt.Sprintf("producer%d", i), 1, func() {
 				for k, st := range streams[i] {
 					vrt.OpBoundary(uint64(100 + i*10 + k))
+					if p.Flush {
+						st.BufferWriter().WriteBytes([]byte{byte(i)})
+						if err := st.Flush(false); err != nil {
+							vrt.Failf("flush-error", "Stream.Flush: %v", err)
+						}
+						continue
+					}
 					if err := st.Close(); err != nil {
 						vrt.Failf("close-error", "Stream.Close: %v", err)
 					}
@@ -133,12 +163,17 @@ func TestVerif_C05(t *testing.T) {
 	defer w.finish()
 	var scs []c05Params
 	if w.thorough() {
-		scs = []c05Params{{1, 1, 4, -1}, {1, 2, 4, -1}, {2, 1, 4, -1}, {1, 3, 4, -1}, {2, 2, 4, -1}, {3, 1, 4, 4}, {3, 2, 8, 2}, {2, 3, 8, 2}}
+		scs = []c05Params{{1, 1, 4, -1, false}, {1, 2, 4, -1, false}, {2, 1, 4, -1, false}, {1, 3, 4, -1, false}, {2, 2, 4, -1, false}, {3, 1, 4, 4, false}, {3, 2, 8, 2, false}, {2, 3, 8, 2, false},
+			{1, 2, 4, -1, true}, {2, 1, 4, -1, true}, {1, 3, 4, 3, true}, {2, 2, 4, 3, true}}
 	} else {
-		scs = []c05Params{{1, 1, 4, -1}, {1, 2, 4, -1}, {2, 1, 4, -1}, {3, 1, 4, 2}, {2, 2, 4, 2}}
+		scs = []c05Params{{1, 1, 4, -1, false}, {1, 2, 4, -1, false}, {2, 1, 4, -1, false}, {3, 1, 4, 2, false}, {2, 2, 4, 2, false},
+			{1, 2, 4, -1, true}, {2, 1, 4, 3, true}, {2, 2, 4, 2, true}}
 	}
 	for i, p := range scs {
 		name := fmt.Sprintf("c05/p%dx%d-cap%d-bound%d", p.Producers, p.Closes, p.Cap, p.Bound)
+		if p.Flush {
+			name = fmt.Sprintf("c05/flush-p%dx%d-cap%d-bound%d", p.Producers, p.Closes, p.Cap, p.Bound)
+		}
 		if i == 0 {
 			w.determinism(name, vrt.Options{Bound: p.Bound}, c05Body(p))
 		}
